@@ -12,7 +12,8 @@
   * struct node (`nodes.Struct`): the user's `Process()` as an abstract function `fn` of the wiring
     (so it may look at which ports are nil / how long the arrays are) and of the list of dependency
     values in `Dependencies()` order;  scalar ports (`nil` or a node), array ports (lists of nodes);
-    `value` (cache), `version`, `depVersions` (`remembered`, `none` = Go's nil slice = never
+    `reads` (which wired inputs `Process()` pulls — processors that skip inputs are expressible;
+    `ReadsAll` = all of them), `value` (cache), `version`, `depVersions` (`remembered`, `none` = Go's nil slice = never
     processed), `inputChangedSinceLastProcess` (`flag`).
 
   `Dependencies()` (since fix 2752e26): scalar ports in sorted field-name order (nil skipped),
